@@ -271,15 +271,27 @@ def run_config(ctx, drv, recipe, old_recipe, store, mode, pre, idx, call="exact"
     old_obj = builder.build(old_recipe)
     spec_new, spec_old = sc.observe(obj), (sc.observe(old_obj) if pre == "earlier" else None)
     zip_store = store == "zip"
-    case0 = {"recipe": recipe, "old_recipe": old_recipe, "store": store, "mode": mode, "pre": pre, "call": call}
+    case0 = {"recipe": recipe, "old_recipe": old_recipe, "store": store, "mode": mode, "pre": pre, "call": call, "idx": idx}
     pre_content = {"absent": None, "file": ["foreign", 1], "dir": ["foreign", 2], "earlier": ["complete", 3],
                    "emptyfile": ["foreign", 4], "emptydir": ["foreign", 5]}[pre]
     NEW = 7
 
+    stem_sibling = None
+    if call == "noext" and zip_store and idx % 2 == 0:
+        # `save("obj", store="zip")` writes obj.zip: whatever already lives at the extension-less path `obj`
+        # (a directory-store save of the same stem, a plain file) is another path and must stay as it is
+        stem_sibling = "dir" if idx % 4 == 0 else "file"
+
     def one(fault):
         target = setup_sandbox(base, store, pre, old_obj)
+        stem = target[: -len(".zip")] if zip_store else None
+        if stem_sibling == "dir":
+            with contextlib.redirect_stdout(io.StringIO()):
+                old_obj.save(stem, store="dir")
+        elif stem_sibling == "file":
+            open(stem, "w").write("same stem, other path\n")
         pre_hash = tree_hash(target)
-        sib_hash = (tree_hash(os.path.join(base, "sib.txt")), tree_hash(os.path.join(base, "sibdir")))
+        sib_hash = (tree_hash(os.path.join(base, "sib.txt")), tree_hash(os.path.join(base, "sibdir")), tree_hash(stem) if stem_sibling else None)
         # every third fault position is an interruption (BaseException), the others an Exception
         exc_cls = InjectedInterrupt if (fault is not None and (fault + idx) % 3 == 0) else Injected
         rec = Recorder(target, fault, exc_cls)
@@ -303,8 +315,10 @@ def run_config(ctx, drv, recipe, old_recipe, store, mode, pre, idx, call="exact"
         listing = sorted(os.listdir(base))
         post_hash = tree_hash(target)   # before load(): zarr.group() creates metadata in a foreign directory it is pointed at
         state, detail = observe_target(target, spec_new, spec_old, pre_hash, post_hash)
-        sib_ok = sib_hash == (tree_hash(os.path.join(base, "sib.txt")), tree_hash(os.path.join(base, "sibdir")))
-        extra = [p for p in listing if p not in ("sib.txt", "sibdir", os.path.basename(target))]
+        sib_ok = sib_hash == (tree_hash(os.path.join(base, "sib.txt")), tree_hash(os.path.join(base, "sibdir")),
+                              tree_hash(stem) if stem_sibling else None)
+        extra = [p for p in listing if p not in ("sib.txt", "sibdir", os.path.basename(target))
+                 and not (stem_sibling and p == os.path.basename(stem))]
         return rec.trace, raised, state, detail, sib_ok, extra, (pre_hash, post_hash)
 
     trace, raised, state, detail, sib_ok, extra, hashes = one(None)
@@ -396,7 +410,24 @@ class Unpicklable:
         raise RuntimeError("cannot be serialised")
 
 
-def run_natural_failure(ctx, drv, recipe, store, pre, idx):
+def _bad_values():
+    """values the serializer cannot write (each makes save() raise on the unchanged tree): an object the
+    dill fallback rejects, object-dtype / ragged / beyond-int64 arrays, a longdouble array, a generator —
+    as an attribute and inside a list / dict"""
+    import numpy as np
+    return [
+        ("unpicklable", lambda: Unpicklable()),
+        ("object-array", lambda: np.array([1, "a", None], dtype=object)),
+        ("ragged-array", lambda: np.array([[1, 2], [3]], dtype=object)),
+        ("bigint-array", lambda: np.array([2 ** 70, 1], dtype=object)),
+        ("longdouble-array", lambda: np.zeros(2, dtype=np.longdouble)),
+        ("generator", lambda: (x for x in ())),
+        ("object-array-in-dict", lambda: {"k": np.array([1, None], dtype=object), "j": 1}),
+        ("unpicklable-in-list", lambda: [1, "a", Unpicklable()]),
+    ]
+
+
+def run_natural_failure(ctx, drv, recipe, store, pre, idx, kind=None):
     """second fault family: an attribute the dill fallback rejects (no injection)"""
     from quantem.core.io import serialize
     scratch = os.path.join(os.environ.get("QVERIF_SCRATCH", "/tmp"), "c08")
@@ -406,13 +437,15 @@ def run_natural_failure(ctx, drv, recipe, store, pre, idx):
     old = builder.build(["obj", "SB", [["old", ["scalar", sc.S(1)]]]])
     keys = list(vars(obj))
     pos = idx % (len(keys) + 1)
+    bads = _bad_values()
+    bad_kind, bad_make = bads[(idx // 2) % len(bads)] if kind is None else next(b for b in bads if b[0] == kind)
     newvars = {}
     for i, k in enumerate(keys):
         if i == pos:
-            newvars["bad"] = Unpicklable()
+            newvars["bad"] = bad_make()
         newvars[k] = vars(obj)[k]
     if pos == len(keys):
-        newvars["bad"] = Unpicklable()
+        newvars["bad"] = bad_make()
     obj.__dict__.clear()
     obj.__dict__.update(newvars)
     target = setup_sandbox(base, store, pre, old)
@@ -426,16 +459,18 @@ def run_natural_failure(ctx, drv, recipe, store, pre, idx):
         raised = type(e).__name__
     spec_old = sc.observe(old) if pre == "earlier" else None
     state, detail = observe_target(target, ["obj", "?", []], spec_old, pre_hash, tree_hash(target))
-    case = {"recipe": recipe, "store": store, "pre": pre, "unpicklable_at": pos}
+    case = {"recipe": recipe, "store": store, "pre": pre, "unpicklable_at": pos, "bad_kind": bad_kind, "idx": idx}
     listing = [p for p in sorted(os.listdir(base)) if p not in ("sib.txt", "sibdir", os.path.basename(target))]
     if raised is None:
-        ctx.pred_fail("unserialisable-accepted", "an unserialisable attribute did not make save raise", case, observed=state, required="exception")
+        ctx.pred_fail(f"unserialisable-accepted:{bad_kind}", "an attribute the serializer cannot write did not make save raise: the target "
+                      "loads to an object silently missing it", case, observed=state, required="exception, target absent or unchanged")
     if state in ("partial-loadable", "complete-new"):
         ctx.pred_fail(f"partial-loadable-natural:{store}", "a save that failed on an unserialisable attribute left a loadable object", case,
                       observed=detail, required="absent / unreadable / complete earlier object")
     if listing:
         ctx.pred_fail("leftover-path", "a failed save left an extra path next to its target", case, observed=listing, required=[])
-    ctx.mark((store, "natural", pre, state))
+    ctx.mark((store, "natural", pre, state, bad_kind))
+    ctx.dist[f"natural-kind:{bad_kind}"] += 1
     ctx.dist[f"natural:{state}"] += 1
     shutil.rmtree(base, ignore_errors=True)
 
@@ -599,8 +634,9 @@ def run(ctx):
                     call = rng.weighted([("exact", 3), ("auto", 1), ("noext", 2 if store == "zip" else 0)])
                     run_config(ctx, drv, recipe, old_recipe, store, mode, pre, idx, call)
                     idx += 1
-                run_natural_failure(ctx, drv, recipe, store, rng.choice(["absent", "earlier"]), idx)
-                idx += 1
+                for _ in range(2):
+                    run_natural_failure(ctx, drv, recipe, store, rng.choice(["absent", "earlier"]), idx)
+                    idx += 1
         history_stream(ctx, drv, ctx.n(10, 100))
         ctx.exhaustive = False
         ctx.extra["exhaustive_in_fault_position_per_graph"] = True
@@ -616,10 +652,10 @@ def replay(ctx, rep):
         if case.get("history"):
             history_stream(ctx, drv, ctx.n(10, 100))
         elif "unpicklable_at" in case:
-            run_natural_failure(ctx, drv, case["recipe"], case["store"], case["pre"], case["unpicklable_at"])
+            run_natural_failure(ctx, drv, case["recipe"], case["store"], case["pre"], case.get("idx", case["unpicklable_at"]), case.get("bad_kind"))
         else:
-            run_config(ctx, drv, case["recipe"], case.get("old_recipe", ["obj", "SB", []]), case["store"], case["mode"], case["pre"], 0,
-                       case.get("call", "exact"))
+            run_config(ctx, drv, case["recipe"], case.get("old_recipe", ["obj", "SB", []]), case["store"], case["mode"], case["pre"],
+                       case.get("idx", 0), case.get("call", "exact"))
     finally:
         drv.close()
     return True
